@@ -46,7 +46,8 @@ CLAIMED = {
     "C10": (E1, "exhaustive enumeration of operand pairs over finite alphabets on the real code; oracle: panic-or-bit-identical",
             "Every ordered unit pair of every type without reference unit x every pair of alphabet amounts (equal amounts in "
             "different units included): comparisons, and + - / under catch_unwind; the documented panic must occur exactly "
-            "when units differ.",
+            "when units differ. Each back-end is explored in two builds: dev profile and the same build without debug "
+            "assertions / overflow checks, because a panic that exists only in one of them is a violation too.",
             TRUST_E1, "5.10"),
     "C04": (E1, "bounded exhaustive exploration (depth 2: operator then inverse operator) of all derived operator instances on the real code against an exact-rational reference model",
             "All 56 operator instances (34 catalogue, 4 astronomical, 18 synthetic) x all operand unit pairs x alphabet "
@@ -61,7 +62,8 @@ CLAIMED = {
             TRUST_E1, "5.5"),
     "C06": (E2, "exhaustive enumeration of a bounded program grammar (all ordered type pairs x 6 operators; all derivation graphs with <= 2 derived types), each program type-checked by rustc against the real crate and compared with the model's closure of the declared derivations",
             "All 1350 catalogue programs in both back-ends, 150 astronomical and 672 cross-crate programs, and 80 derivation "
-            "graphs with their complete program sets (or whole-crate rejection where derivations collide): 22 810 verdicts, "
+            "graphs (each with a single-unit and a no-reference-unit bystander type) with their complete program sets (or "
+            "whole-crate rejection where derivations collide): 41 578 verdicts (thorough: graphs with three derived types), "
             "each compared with the verdict and result type predicted from the declarations. Rejected programs carry no "
             "type ascription, so an unexpected operator with any result type is caught.",
             "Trusted: rustc's type checker, the declared derivations in data/catalogue.json, attribution of diagnostics to programs by line. Graphs with more than two derived types or three base types are outside the bound.", "5.6"),
@@ -75,14 +77,14 @@ CLAIMED = {
             "upper-snake-case constants are probed by compiling one program per unit (E2).",
             TRUST_E1, "5.9"),
     "C11": (E2, "exhaustive enumeration of a bounded grammar of well-formed #[quantity] definitions (all attribute permutations, literal spellings, prefix/doc patterns, kinds); each compiled with the real macro and executed, its registry dump and operator corpus compared with a Python model of the declaration",
-            "720 (quick) / ~3 400 (thorough) definitions per back-end, every one compiled and executed against the real crate; "
+            "~940 (quick) / ~5 600 (thorough) definitions per back-end, every one compiled and executed against the real crate; "
             "names, symbols, prefixes, scales (exact literal value in the amount type), iteration order incl. ties, "
             "constants, lookups, constructors and all operator families are compared with the model; the permutation "
             "clause is checked on the observed dumps of each permutation group.",
             "Trusted: the Python model of the documented macro behaviour (lib/defgen.py), rustc. Definitions outside the grammar G (more than 3 further units, other literal forms, identifier words of one letter or with digits) are not enumerated.", "5.11"),
     "C12": (E2, "exhaustive application of every defect class to every well-formed base definition of a bounded grammar; each malformed definition expanded / type-checked by rustc, verdict and error location compared with the expectation",
-            "43 concrete defect forms covering every clause of the statement x 26 base definitions (all kinds, sizes, "
-            "basic and derived) = 940 malformed definitions per back-end, plus tests/ui verbatim; each must carry an error "
+            "49 concrete defect forms covering every clause of the statement x 26 base definitions (all kinds, sizes, "
+            "basic and derived) = ~1 080 malformed definitions per back-end, plus tests/ui verbatim; each must carry an error "
             "inside its own line range while the well-formed control definitions compile clean.",
             "Trusted: rustc and the proc-macro diagnostics it reports; line-range attribution. Definitions outside the grammar (more than 3 further units, other identifier conventions) are not enumerated.", "5.12"),
     "C13": (E1, "bounded exhaustive exploration of rate construction, reciprocal, rate*q, q*rate, q/rate and their inverse paths on the real code against an exact-rational reference model",
@@ -101,7 +103,9 @@ CLAIMED = {
             TRUST_E1 + " str formatting of std is the definition of 'ordinary string formatting rules'; f64/Decimal FromStr are trusted for the parse-back clause.", "5.15"),
     "C16": (E1, "exhaustive enumeration of the finite input domains (all i8, all short strings over the abbreviation alphabet)",
             "Complete over all 25 prefixes, all 256 exponents and all strings of length <= 2 (thorough: <= 3) over an "
-            "alphabet that contains every abbreviation character, its case swaps and the micro-sign look-alike.",
+            "alphabet that contains every abbreviation character, its case swaps, the micro-sign look-alike and the "
+            "characters that agree with an abbreviation character modulo 128 / 256; plus every abbreviation extended by "
+            "one character on either side.",
             "Trusted: the SI-brochure prefix table in data/catalogue.json.", "5.16"),
     "C17": (E1, "exhaustive enumeration of (unit, amount) states through three serde channels on the real code with a bit-exact round-trip oracle and a collision table for injectivity",
             "All catalogue units x value and adversarial amount alphabets, both back-ends, three channels; bit-exact oracle.",
@@ -109,7 +113,8 @@ CLAIMED = {
     "C18": (E1, "exhaustive enumeration of operand tuples from totality alphabets (every IEEE class / Decimal range edges) through every operation under catch_unwind; precondition evaluated in exact rationals",
             "Every operation of the library on every unit pair with every combination of special values (f64) or range-edge "
             "values (Decimal); a panic on a case that satisfies the statement's precondition is a violation, the number of "
-            "excluded cases is reported per precondition clause.",
+            "excluded cases is reported per precondition clause. Each back-end is explored in two builds (dev profile, and "
+            "without debug assertions / overflow checks).",
             TRUST_E1 + " The Decimal precondition is read as in DESIGN.md 5.18 (includes the own-unit product/quotient of the amounts).", "5.18"),
     "C19": (E3, "exhaustive enumeration of the feature-configuration lattice; each configuration built by cargo from the working tree, probed for the items it must expose, and a fixed corpus compared between minimal and full configurations",
             "quick: the 16 feature sets of the statement (each of 14 alone, none, all) at the two opposite corners of "
